@@ -69,7 +69,8 @@ PROPS = {
         "tests": [{"name": "TestC18Concurrent", "quick": 100, "shards_quick": 4, "thorough": 500, "shards": 12, "race": True},
                   {"name": "TestC18Hammer", "quick": 6, "shards_quick": 3, "thorough": 40, "shards": 8, "race": True},
                   {"name": "TestC18Eviction", "quick": None, "thorough": None},
-                  {"name": "TestC18Recency", "quick": 150, "thorough": 1500, "shards": 2}],
+                  {"name": "TestC18Recency", "quick": 150, "thorough": 1500, "shards": 2},
+                  {"name": "TestC18SnapshotStable", "quick": 200, "thorough": 3000, "shards": 2}],
     },
     "C17": {
         "level": "exploration",
@@ -243,6 +244,7 @@ PROPS = {
         "tests": [{"name": "TestC07Catalogue", "quick": None, "thorough": None},
                   {"name": "TestC07HostileBugs", "quick": 1500, "thorough": 6000, "shards": 8},
                   {"name": "TestC07HostileIdentities", "quick": 800, "thorough": 4000, "shards": 4},
+                  {"name": "TestC07SignedHistories", "quick": 400, "thorough": 4000, "shards": 4},
                   {"name": "FuzzOpsBlob", "fuzztime": 150},
                   {"name": "FuzzIdentityVersion", "fuzztime": 100}],
     },
